@@ -725,11 +725,9 @@ def no_nan(table, rng):
 
 
 def frame_for(rng, params, table, sizes):
-    """`series` = the column getter `sdf.x...`.  expanding var/std stay on frames: on a single column
-    aggregations.Var divides python ints 0/0 (ZeroDivisionError when the stream is built), which belongs to C06."""
+    """`series` = the column getter `sdf.x...` (expanding var/std on a single column included: aggregations.Var used to
+    divide python ints 0/0 when the stream was built from the empty example - repaired in /repo 445f1a7)."""
     if rng.random() >= 0.3:
-        return "df"
-    if params["kind"] == "exp" and params["agg"] in ("var", "std"):
         return "df"
     return "series"
 
@@ -879,7 +877,7 @@ def run(ctx):
         "rolling: pandas is called exactly as rolling_accumulator calls it, df.rolling(window).op() (Rolling stores min_periods but never passes it on, so pandas' default applies: window for row counts, 1 for time windows); time windows require a monotonic index (pandas raises otherwise)",
         "rolling std is modelled as sqrt of the modelled var; `aggregate` is exercised with the function names sum/max/mean",
         "expanding emits one value per batch: the reference is pandas expanding(min_periods=0).agg() at the last row seen so far (identical to expanding().agg() as soon as a valid value has been seen; before that sum/count give 0 where pandas' default min_periods=1 gives NaN); the expanding var theorem is stated on the moment formula, its agreement with pandas' var is checked here numerically",
-        "expanding var/std are exercised on frames only: on a single column aggregations.Var divides python ints 0/0 when the stream is built from an empty example (ZeroDivisionError; property C06 makes no claim there). expanding mean on a single column is exercised; its zero-count case (signature expanding-mean-zero-count) is the aggregations.Mean defect shared with C06/C07",
+        "expanding var/std/mean are exercised on frames and on single columns (on a column aggregations.Var used to divide python ints 0/0 when the stream was built from the empty example: repaired in /repo 445f1a7); its zero-count case (signature expanding-mean-zero-count) is the aggregations.Mean defect shared with C06/C07",
         "ewm: the batching theorems are for NaN-free tables; EWMean has no NaN handling (reported under the signature ewm-nan-unsupported). Tables with NaN cells are compared with the defect-mirroring model ewmStepNan (real streamz output, old_wt, is_first) and real pandas with the NaN specification ewmAtNan (adjust=True, ignore_na=False), tolerance 1e-9; com/alpha/span with rational values (halflife is irrational and not exercised)",
         "expanding size/value_counts/full/apply and rolling on grouped frames are not covered",
     ]
